@@ -33,6 +33,14 @@ def main():
     spec = json.loads(sys.argv[1]) if len(sys.argv) > 1 and sys.argv[1].startswith('{') else {}
     log = spec.get('log') or '/tmp'
     pid = os.getpid()
+    # "once": the first generation behaves per spec, every later generation per spec['then']
+    if spec.get('once_marker'):
+        if os.path.exists(spec['once_marker']):
+            then = dict(spec.get('then') or {})
+            then.setdefault('log', log)
+            spec = then
+        else:
+            open(spec['once_marker'], 'w').close()
     sigf = os.path.join(log, '%d.sig' % pid)
     pending = []
 
